@@ -18,6 +18,7 @@ CONSTANTS
   ExportLen = %d
   Only %s
 INVARIANTS OracleSane Export
+VIEW View
 CHECK_DEADLOCK FALSE
 """
 TRACE_CFG = """SPECIFICATION Spec
@@ -73,7 +74,9 @@ def run(pid, tier, replay=None):
     seed = vf.seed()
     verdict = vf.Verdict(pid)
 
-    # (name, MaxP, MaxLen, simulate-num or None, validate traces with TLC?)
+    # (name, MaxP, MaxLen, simulate-num or None, record every k-th history's Nesting trace for TLC (0 = none))
+    # NB tlc -simulate evaluates the Export invariant on every successor of the last step, so one
+    # simulated behaviour yields |Ivs| histories that share all but the last insert.
     if replay:
         rep = json.load(open(replay))
         hists = [e["case"]["hist"] for e in rep["examples"]]
@@ -82,12 +85,13 @@ def run(pid, tier, replay=None):
         only = "{" + ", ".join(sorted(set(_tla(h) for h in hists))) + "}"
         with open(os.path.join(wd, "MCIntervalReplay.tla"), "w") as fh:
             fh.write("---- MODULE MCIntervalReplay ----\nEXTENDS MCInterval\nOnlyDef == %s\n====\n" % only)
-        runs = [("replay", maxp, maxlen, None, True)]
+        runs = [("replay", maxp, maxlen, None, 1)]
     elif tier == "thorough":
-        runs = [("exh_p4_l5", 4, 5, None, False), ("exh_p5_l4", 5, 4, None, True),
-                ("sim_p9_l12", 9, 12, 30000, True)]
+        runs = [("exh_p4_l5", 4, 5, None, 0), ("exh_p5_l4", 5, 4, None, 1), ("exh_p2_l7", 2, 7, None, 4),
+                ("exh_p1_l11", 1, 11, None, 4), ("sim_p9_l12", 9, 12, 400, 1)]
     else:
-        runs = [("exh_p4_l4", 4, 4, None, True), ("sim_p7_l8", 7, 8, 3000, False)]
+        runs = [("exh_p4_l4", 4, 4, None, 3), ("exh_p2_l5", 2, 5, None, 1), ("exh_p1_l7", 1, 7, None, 1),
+                ("sim_p7_l9", 7, 9, 40, 0)]
 
     states = trans = ncases = nontrivial = checks = traced = rejected_total = 0
     samples, bounds, variants = [], [], {}
@@ -97,7 +101,7 @@ def run(pid, tier, replay=None):
         module = "MCInterval"
         with open(os.path.join(wd, cfg), "w") as fh:
             if replay:
-                fh.write(CFG % (maxp, maxlen, -1, "<- OnlyDef"))
+                fh.write(CFG % (maxp, maxlen, 0, "<- OnlyDef"))
                 module = "MCIntervalReplay"
             else:
                 fh.write(CFG % (maxp, maxlen, maxlen, "= {}"))
@@ -135,7 +139,9 @@ def run(pid, tier, replay=None):
                        "histories": cnt[0], "tlc_states": r.distinct})
 
         trace_path = os.path.join(wd, "nesting_%s.ndjson" % name)
-        args = ["-seed", str(seed)] + (["-trace", trace_path] if do_trace else [])
+        args = ["-seed", str(seed)]
+        if do_trace:
+            args += ["-trace", trace_path, "-tracemod", str(do_trace), "-tracerem", str(seed)]
         outp = os.path.join(wd, "mismatch_%s.jsonl" % name)
         rc, _o, err = vf.run_driver(binary, args, stdin_path=casefile, stdout_path=outp, timeout=3000)
         if rc != 0:
